@@ -10,6 +10,7 @@ pub mod c09;
 pub mod c10;
 pub mod c11;
 pub mod c12;
+pub mod c13;
 pub mod c14;
 pub mod c15;
 pub mod c19;
@@ -30,6 +31,7 @@ pub fn dispatch(prop: &str, rc: &mut RunCtx) -> bool {
         "C10" => c10::run(rc),
         "C11" => c11::run(rc),
         "C12" => c12::run(rc),
+        "C13" => c13::run(rc),
         "C14" => c14::run(rc),
         "C15" => c15::run(rc),
         "C19" => c19::run(rc),
